@@ -21,7 +21,7 @@ RULE = ('programs of 1-3 nodes; every node carries a combination of option lists
         'value touches or misses (i.e. every generated program except bare declarations); distinct by rendered text')
 SHARDS = {'quick': 16, 'thorough': 16}
 MIN_NONTRIVIAL = {'quick': 2000, 'thorough': 50000}
-REQUIRED_CLASSES = ['edge:int-options-in-another-unit', 'edge:int-option-member', 'edge:int-option-non-member', 'edge:constraint-on-imported-copy', 'edge:import-condition', 'edge:import-format', 'edge:import-options', 'edge:import-remote', 'foreign-workload:C13', 'foreign-workload:C14', 'foreign-workload:C17', 'foreign-workload:C18', 'edge:sliced-injection-into-bounded-array', 'edge:slice-within-bounds', 'edge:slice-outside-bounds', 'expected-accept', 'expected-reject', 'option-per-line', 'option-list-form', 'option-in-other-unit',
+REQUIRED_CLASSES = ['staged-base', 'staged-base:inherited-condition-violated-through-another-node', 'edge:int-options-in-another-unit', 'edge:int-option-member', 'edge:int-option-non-member', 'edge:constraint-on-imported-copy', 'edge:import-condition', 'edge:import-format', 'edge:import-options', 'edge:import-remote', 'foreign-workload:C13', 'foreign-workload:C14', 'foreign-workload:C17', 'foreign-workload:C18', 'edge:sliced-injection-into-bounded-array', 'edge:slice-within-bounds', 'edge:slice-outside-bounds', 'expected-accept', 'expected-reject', 'option-per-line', 'option-list-form', 'option-in-other-unit',
                     'option-on', 'option-near', 'option-all-off', 'str-option-member', 'str-option-not-member',
                     'cond-le-on', 'cond-le-near', 'cond-lt-on', 'cond-ge-above', 'cond-eq-near', 'cond-ne-on',
                     'condition-compound', 'condition-constant-in-other-unit', 'bool-condition-satisfied',
@@ -70,6 +70,12 @@ def cases(rng, tier, shard, nshards, ctx):
             yield dip_edge.gen_c16_import(rng)
         if i % 8 == 6:
             yield dip_edge.gen_c16_intopt(rng)
+        if i % 8 == 2:
+            # programs parsed on top of a base environment: constraints sitting on INHERITED nodes still hold in what is returned
+            from vt.props import c17_base
+            c = c17_base.gen(rng)
+            c['base'] = rng.choice(['nodes', 'nodes-and-units'])
+            yield dict(edge='c16-staged-base', stbase=c)
 
 
 def run_real(text, ctx):
@@ -241,6 +247,25 @@ def run_case(case, ctx):
         return run_repo_tests(case, ctx)
     if case.get('t') == 'foreign':
         return run_foreign(case, ctx)
+    if case.get('edge') == 'c16-staged-base':
+        from vt.props import c17_base
+        keep = []
+
+        def real_parse(ctx_, text, base=None, tag='m', file=None):
+            from scinumtools.dip import DIP
+            _uid[0] += 1
+            p = DIP(base, name='c16sb%d' % _uid[0]) if base is not None else DIP(name='c16sb%d' % _uid[0])
+            keep.append(p)
+            p.add_string(text)
+            try:
+                return 'ok', p.parse()
+            except Exception as e:
+                return 'exc', e
+        out = c17_base.run(case['stbase'], ctx, real_parse)
+        R.drain_parse_deviations()
+        if ctx.get('hyg') is not None and ctx['hyg'].check_restore():
+            out['monitors']['table_leaks_restored'] = 1
+        return out
     if case.get('edge'):
         from vt.props import dip_edge
         out = {'c16-slice': dip_edge.run_c16, 'c16-import': dip_edge.run_c16_import, 'c16-intopt': dip_edge.run_c16_intopt}[case['edge']](case, ctx)
